@@ -5,7 +5,7 @@ single-item call of the real code on every row (no sign freedom - both sides
 are the same computation, written twice)."""
 import numpy as np
 
-from .. import gens
+from .. import forms, gens
 from ..core import Case, call
 from ..ref import quat as rq
 
@@ -24,7 +24,8 @@ EST_ROUTES = ["Tilt/quaternion", "Tilt/angles", "Tilt/rotmat", "Tilt/acc-only", 
               "QUEST", "Davenport", "FLAE/symbolic", "FLAE/eig", "FLAE/newton", "TRIAD/rotmat/NED", "TRIAD/quaternion/NED",
               "TRIAD/rotmat/ENU", "TRIAD/quaternion/ENU", "AQUA/am/NED", "AQUA/am/ENU", "AQUA/acc/NED", "OLEQ/NED", "OLEQ/ENU"]
 ROUTES = CONV_ROUTES + METRIC_ROUTES + EST_ROUTES
-REGIONS = {"rows:generic": 30, "rows:special": 30, "rows:one": 30, "metric:generic": 30, "metric:close": 30, "metric:exact": 30, "est:generic": 30, "est:one": 30, "est:scaled": 30}
+REGIONS = {"rows:generic": 30, "rows:special": 30, "rows:one": 30, "metric:generic": 30, "metric:close": 30, "metric:exact": 30, "est:generic": 30, "est:one": 30, "est:scaled": 30,
+           "rows:integer": 20, "est:integer": 20}
 PROBES = [("ahrs.common.quaternion", "QuaternionArray.to_DCM"), ("ahrs.common.quaternion", "QuaternionArray.from_DCM"),
           ("ahrs.common.quaternion", "QuaternionArray.from_rpy"), ("ahrs.common.quaternion", "QuaternionArray.to_angles"),
           ("ahrs.common.orientation", "hughes"), ("ahrs.common.orientation", "chiaverini"), ("ahrs.common.orientation", "q2R"),
@@ -77,6 +78,18 @@ def random_am(rng, n):
     return a, np.array(m)
 
 
+def integer_am(rng, n):
+    a, m = [], []
+    for _ in range(n):
+        while True:
+            x, y = rng.integers(-9, 10, 3).astype(float), rng.integers(-60, 61, 3).astype(float)
+            if np.any(x) and np.any(y) and np.radians(5) < rq.vangle(x, y) < np.radians(175) and abs(x[2]) != np.linalg.norm(x):
+                break
+        a.append(x)
+        m.append(y)
+    return np.array(a), np.array(m)
+
+
 def generate(rng, tier, shard, nshards):
     n = gens.budget(150, tier, nshards)
     for i in range(n):
@@ -99,6 +112,19 @@ def generate(rng, tier, shard, nshards):
         else:
             Q2 = gens.unit(rng, N).reshape(N, 4)
         yield Case("metric", reg, Q1=Q1, Q2=Q2 * rng.choice([-1.0, 1.0], N)[:, None])
+    # whole-number rows (what a caller types by hand or reads from a raw integer sensor register): the batch entry points are also
+    # driven with the same values as integer arrays and nested lists
+    for i in range(gens.budget(40, tier, nshards)):
+        N = int(rng.integers(1, 6))
+        Q = rng.integers(-4, 5, (N, 4)).astype(float)
+        Q[np.all(Q == 0, axis=1)] = [1, 0, 0, 0]
+        ang = rng.integers(-3, 4, (N, 3)).astype(float)
+        ang[:, 1] = np.clip(ang[:, 1], -1, 1)
+        V = rng.integers(-50, 51, (N, 3)).astype(float)
+        a, m = integer_am(rng, N)
+        yield Case("rows", "rows:integer", Q=Q, angles=ang, V=V, a=a, m=m)
+        a, m = integer_am(rng, N)
+        yield Case("est", "est:integer", a=a, m=m, dip=float(rng.choice([0.0, 30.0, -45.0, 60.0, 66.0])), seed=int(rng.integers(2**31)))
     for i in range(n):
         reg = ["est:generic", "est:one", "est:scaled"][i % 3]
         N = 1 if reg == "est:one" else int(rng.integers(2, 7))
@@ -108,6 +134,11 @@ def generate(rng, tier, shard, nshards):
 
 def cmp_rows(ctx, route, batch_out, singles, tol, what="batch row = single item"):
     """batch_out: Outcome of the N-row call; singles: list of Outcomes per row."""
+    if not batch_out.ok and any((not so.ok) and so.exc_name == batch_out.exc_name for so in singles):
+        # the single-item entry point fails in the same way on one of the rows: the two entry points agree; whether the item
+        # should have been accepted at all is C03 / C11's business
+        ctx.note("batch and single-item call raise the same %s: equal behaviour, not judged here" % batch_out.exc_name)
+        return
     if not ctx.returned(batch_out, route=route):
         return
     B = np.asarray(batch_out.value)
@@ -151,7 +182,13 @@ def check_rows(case, ctx):
     cmp_rows(ctx, "rpy2q", call(lambda: o.rpy2q(ang.copy()).T if N > 0 else None), [call(lambda i=i: o.rpy2q(ang[i].copy())) for i in range(N)], TOL_CONV)
     cmp_rows(ctx, "ned2enu", call(lambda: frames.ned2enu(V.copy())), [call(lambda i=i: frames.ned2enu(V[i].copy())) for i in range(N)], 0.0)
     cmp_rows(ctx, "am2angles", call(lambda: o.am2angles(a.copy(), m.copy())), [call(lambda i=i: o.am2angles(a[i].copy(), m[i].copy())[0]) for i in range(N)], TOL_EST)
-    R3 = np.array([rq.refR(q) for q in Q])
+    if case.region == "rows:integer":
+        for route, fn, args in (("to_DCM", lambda x: QA(x).to_DCM(), [Q]), ("conjugate", lambda x: QA(x).conjugate(), [Q]), ("to_angles", lambda x: QA(x).to_angles(), [Q]),
+                                ("from_rpy", lambda x: np.asarray(QA(rpy=x)), [ang]), ("q2R.v1", lambda x: o.q2R(x), [Q]), ("q2R.v2", lambda x: o.q2R(x, version=2), [Q]),
+                                ("DCM.from_quaternion", lambda x: DCM().from_quaternion(x), [Q]), ("rpy2q", lambda x: o.rpy2q(x), [ang]),
+                                ("ned2enu", lambda x: frames.ned2enu(x), [V]), ("am2angles", lambda x, y: o.am2angles(x, y), [a, m])):
+            forms.invariant(ctx, route, fn, args)
+    R3 = np.array([rq.refR(q / np.linalg.norm(q)) for q in Q])
     th = np.array([rq.rot_angle(R) for R in R3])
     dom = th <= np.pi - 1e-6
     for mth, kw in DCM_METHODS:
@@ -217,6 +254,9 @@ def check_est(case, ctx):
         specs["FLAE/" + meth] = (lambda a, m, meth=meth: F.FLAE(a, m, method=meth, magnetic_dip=dip).Q,
                                  lambda a, m, meth=meth: F.FLAE(magnetic_dip=dip).estimate(a, m, method=meth))
     for name, (batch, single) in specs.items():
+        if case.region == "est:integer":
+            forms.invariant(ctx, name, lambda x, y: batch(x, y), [a, m])
+            forms.invariant(ctx, name, lambda x, y: single(x, y), [a[0], m[0]], clause="single-item call: the same values in another argument form give the same result")
         if N > 1:
             cmp_rows(ctx, name, call(lambda: batch(a.copy(), m.copy())), [call(lambda i=i: single(a[i].copy(), m[i].copy())) for i in range(N)], TOL_EST)
         # one-row batch and one-sample constructor call must equal estimate() with the same options
